@@ -575,6 +575,23 @@ def _dump_float(value: float) -> Union[float, str]:
     return value
 
 
+def _dump_enum(enum_class: Type[Enum], value: int) -> Union[str, int]:
+    """Dump the given enum number to JSON: the name of its member, or the number
+    itself when the enum defines no member for it (as the proto3 JSON mapping does)
+    """
+    try:
+        return enum_class(value).name
+    except ValueError:
+        return int(value)
+
+
+def _parse_enum(enum_class: Type[Enum], value: Union[str, int]) -> Enum:
+    """Parse a JSON enum value: a member name or a number (defined or not)"""
+    if isinstance(value, str):
+        return enum_class.from_string(value)
+    return enum_class.try_value(value)
+
+
 def load_varint(
     stream: "SupportsRead[bytes]", first: bytes = b""
 ) -> Tuple[int, bytes]:
@@ -1574,19 +1591,21 @@ class Message(ABC):
                         if isinstance(value, typing.Iterable) and not isinstance(
                             value, str
                         ):
-                            output[cased_name] = [enum_class(el).name for el in value]
+                            output[cased_name] = [
+                                _dump_enum(enum_class, el) for el in value
+                            ]
                         else:
                             # transparently upgrade single value to repeated
-                            output[cased_name] = [enum_class(value).name]
+                            output[cased_name] = [_dump_enum(enum_class, value)]
                     elif value is None:
                         if include_default_values:
                             output[cased_name] = value
                     elif meta.optional:
                         enum_class = field_types[field_name].__args__[0]
-                        output[cased_name] = enum_class(value).name
+                        output[cased_name] = _dump_enum(enum_class, value)
                     else:
                         enum_class = field_types[field_name]  # noqa
-                        output[cased_name] = enum_class(value).name
+                        output[cased_name] = _dump_enum(enum_class, value)
                 elif meta.proto_type in (TYPE_FLOAT, TYPE_DOUBLE):
                     if field_is_repeated:
                         output[cased_name] = [_dump_float(n) for n in value]
@@ -1647,9 +1666,9 @@ class Message(ABC):
                 elif meta.proto_type == TYPE_ENUM:
                     enum_cls = cls._betterproto.cls_by_field[field_name]
                     if isinstance(value, list):
-                        value = [enum_cls.from_string(e) for e in value]
-                    elif isinstance(value, str):
-                        value = enum_cls.from_string(value)
+                        value = [_parse_enum(enum_cls, e) for e in value]
+                    else:
+                        value = _parse_enum(enum_cls, value)
                 elif meta.proto_type in (TYPE_FLOAT, TYPE_DOUBLE):
                     value = (
                         [_parse_float(n) for n in value]
